@@ -151,7 +151,7 @@ class Monitor:
         self.obs = obs
         self.out = []                 # (signature, message, step index)
         self.failed_delete = set()    # sessions whose deletion was rejected at some point
-        self.ctr_lost = set()         # (lseid, pdr id) whose stored ctrID is the 0 a modification left (Update PDR / Create PDR)
+        self.ctr_lost = set()         # (lseid, pdr id) created by a modification: stored with ctrID 0, never allocated
         self.poisoned = {}            # (kind, id) -> session whose REJECTED deletion put the id back into its pool
         self.zero_released = set()    # counter cells put into the pool by the deletion of a session whose PDR carried them as the bogus ctrID
 
@@ -159,18 +159,18 @@ class Monitor:
         self.out.append((sig, f"step {i} ({self.case['steps'][i]['op']}/{self.case['steps'][i].get('kind', '')}): {msg}", i))
 
     # which recorded finding (if any) explains that `ident` of `kind` is free / shared although a session uses it:
-    #  - the id was put back by a deletion that was then REJECTED, and that session is still live (F24), or
-    #  - it is the ctrID 0 a modification left in a stored PDR (Update PDR overwrites the allocated one, a PDR created
-    #    by a modification never gets one), and that PDR is still live
+    #  - an application id put back by a deletion that was then REJECTED, while that session is still live (F24), or
+    #  - the ctrID 0 of a PDR created by a modification (sendUpdate allocates no counter), while that PDR is live,
+    #    or cell 0 after the deletion of such a session released it
     def why(self, kind, ident, st):
         live = {s["lseid"] for s in st["store"]}
         if kind == "ctr":
             for s in st["store"]:
                 for p in s["rules"]["pdrs"]:
                     if p["ctr"] == ident and (s["lseid"], p["id"]) in self.ctr_lost:
-                        return "modification-zeroes-ctr"
+                        return "pdr-created-by-modification-has-no-ctr"
             if ident in self.zero_released:
-                return "modification-zeroes-ctr"
+                return "pdr-created-by-modification-has-no-ctr"
         if self.poisoned.get((kind, ident)) in live:
             return "released-before-failed-delete"
         return None
@@ -221,7 +221,7 @@ class Monitor:
         # ---- history facts used to name the recorded shapes
         if op == "del" and cause != ACCEPTED and step["lseid"] in live_sessions(prev) and step["lseid"] in live:
             for (k, o, v, changed) in events:
-                if o == "add":
+                if o == "add" and k == "appid":       # the application id goes back before the DELETE batch is written
                     self.poisoned[(k, v)] = step["lseid"]
         if op == "del":
             # the deletion of a session whose PDR carries the bogus ctrID 0 releases cell 0, whoever owns it
@@ -235,8 +235,6 @@ class Monitor:
             after = {p["id"]: p["ctr"] for s in st["store"] if s["lseid"] == step["lseid"] for p in s["rules"]["pdrs"]}
             popped = [v for (k, o, v, _) in events if k == "ctr" and o == "pop"]
             for pid, c in after.items():
-                if pid in before and before[pid] != c and c not in popped and pid in step.get("u_pdrs", []):
-                    self.ctr_lost.add((step["lseid"], pid))      # Update PDR wrote ctrID 0 over the allocated one
                 if pid not in before and c not in popped and pid in step.get("c_pdrs", []):
                     self.ctr_lost.add((step["lseid"], pid))      # a PDR created by a modification never gets a counter
 
